@@ -376,6 +376,7 @@ def run(chk):
         v = factor_expr(fa, {"op.factor": f, "__sum_factor__": F})
         chk.ob("factor-algebra", "OpSum.simplify[merge]", sp.simplify(v - (f + F)) == 0, simp.where, str(v), "f + sum of merged factors",
                line=n.lineno, detail="merged term's factor is not the sum of the merged factors")
+    simplify_order_rule(chk, src)
     # linear-structure dunders: evaluate the returned expression symbolically (self -> A, other -> B)
     A, B = sp.symbols("A B")
 
@@ -419,6 +420,26 @@ def run(chk):
             v = alg(r.value, env)
             chk.ob("factor-algebra", nm, sp.simplify(v - expect) == 0, fi.where, str(v), txt, line=r.lineno,
                    detail=f"{nm} does not denote {txt} (self -> A, other -> B)")
+
+
+def simplify_order_rule(chk, src):
+    """OpSum.simplify: the tolerance is applied to merged coefficients, never to the individual terms before merging"""
+    chk.rule("filter-after-merge", "in OpSum.simplify every use of the tolerance `atol` comes after the loop that merges equal terms", 1)
+    fi = src.func(OP, "OpSum.simplify")
+    tol = fi.params()[1]
+    loops = [n for n in fi.node.body if isinstance(n, ast.While)]
+    if len(loops) != 1:
+        raise AnalysisError(f"{fi.where}: merge loop (`while old_opsum:`) not found")
+    end = loops[0].end_lineno
+    uses = [n for n in ast.walk(fi.node) if isinstance(n, ast.Name) and n.id == tol and isinstance(n.ctx, ast.Load)]
+    early = [n.lineno for n in uses if n.lineno <= end]
+    chk.ob("filter-after-merge", "OpSum.simplify", bool(uses) and not early, fi.where, {"uses of atol at lines": [n.lineno for n in uses], "merge loop ends at": end},
+           "all uses after the merge loop", line=early[0] if early else fi.node.lineno,
+           detail="terms are dropped by the tolerance before equal terms are merged: several copies of one term, each below atol but summing above it, "
+                  "disappear and the operator changes by more than the stated tolerance")
+    merged = [n for n in ast.walk(loops[0]) if isinstance(n, ast.Call) and unparse(n.func).endswith("same_term")]
+    chk.ob("filter-after-merge", "merge criterion is Op.same_term (symbol and DoFs after identity squeezing)", len(merged) == 1 and "squeeze_identity" in unparse(fi.node), fi.where,
+           [unparse(m) for m in merged], "op.same_term(other_op) on squeezed operators")
 
 
 def run_thorough(chk):
